@@ -25,7 +25,7 @@ rest of the chain is bit for bit.
 
 Sharing: the generic definitions recompute `assignments` (the wire deconvolution of the whole
 event) for every pad column and `cholSolve` for every matrix entry; `run` below computes each
-once, and `run_eq` / `wireSignalsDeconvFast_eq` prove that it is the generic model.
+once; `run_ok`, `avalanchesShared_eq` and `wireSignalsDeconvFast_eq` prove that it is the generic model.
 -/
 namespace AlphaG.Avalanches
 open AlphaG AlphaG.Deconv AlphaG.Ranges AlphaG.Matching
